@@ -49,16 +49,21 @@ META = {
     "partial": [
         "rounding: every clause 'with the accuracy stated in C01' is theorem (exact identity / explicit bound over the reals) + "
         "measured agreement of the float code with the 192-bit model at the property's tolerances",
-        "Exp(Log X): proved for EVERY valid element (SO3_exp_log_all, Sim3/RxSO3/SE3_exp_log_all, *_exp_log_blocks; regime 3 in "
-        "full: SO3_exp_log_regime3); only SE3 with a rotation by less than eps keeps an explicit 1+O(θ^4) translation factor "
-        "(SE3_exp_log_blocks) instead of exactness",
-        "Log(Inv X) = -Log X: SO3 and RxSO3 for every input; SE3/Sim3 exactly in regime 1 (…_partial) and in backward form with the "
-        "bound ‖t̃-t‖² <= 8·eps²·‖t‖² for every recovered angle above eps (SE3_log_inv_backward, Sim3_log_inv_backward, "
-        "log_inv_backward_bound). Still only measured (loginv stream): rotations by less than eps, and Sim3 with 0 < |log s| <= eps "
-        "(series regime of rxso3_Ws, where the code uses C = 1 although the scale is not exactly 1)",
-        "Log(Exp x) = x: SO3 proved on all of [0, π]; uniqueness in the principal ball proved for all four groups "
-        "(*Exp_inj_principal, SO3_log_unique); SE3/RxSO3/Sim3 exact for zero rotation and on the band π·eps<θ<π(1-eps); their "
-        "translation part in the eps-thin bands next to 0 and π rides on the logexp stream",
+        "Exp(Log X): proved for every valid element at the quaternion level (within sqrt(2)·eps of ±q: SO3_exp_log_all, *_exp_log_all, "
+        "*_exp_log_blocks; regime 3 in full: SO3_exp_log_regime3) and at the action level (‖Exp(Log X)·p − X·p‖ ≤ 2·sqrt(2)·eps·s·‖p‖: "
+        "*_exp_log_act_all) whenever the recovered angle exceeds eps; SE3 rotations below eps: exact for pure translations / identity "
+        "(SE3_exp_log_pure_translation), otherwise ‖t'−t‖ ≤ θ^4·‖t‖/223 (SE3_exp_log_small_bound); an action-level bound for rotations "
+        "below eps (Taylor branch of so3_Exp, not exactly unit) is not proved",
+        "Log(Inv X) = -Log X: SO3 every quaternion, RxSO3 every valid element; SE3/Sim3 exact in regime 1 (…_partial), for elements "
+        "without rotation (SE3_log_inv_pure_translation), and in backward form with ‖t̃−t‖² ≤ 8·eps²·‖t‖² for every recovered angle "
+        "above eps (SE3_log_inv_backward, Sim3_log_inv_backward[_unit_scale], log_inv_backward_bound). NOT proved (measured by "
+        "the loginv stream): SE3/Sim3 with 0 < rotation < eps, Sim3 with 0 < |log s| ≤ eps (series regime of rxso3_Ws: C = 1 "
+        "although the scale is not exactly 1 — the identity holds to O(eps) only)",
+        "Log(Exp x) = x below π: SO3 on all of [0, π] with the STATED DEVIATION that for cos(θ/2) ≤ eps (θ within π·eps of π) "
+        "model and code return x·π/θ ≠ x, off by π−θ ≤ π·eps (so3_log_exp_near_pi); rotation and log-scale blocks of "
+        "se3/rxso3/sim3 are those of so3 (log_exp_rot_blocks); the translation block is proved for zero rotation and on the band "
+        "π·eps<θ<π(1−eps) only (measured elsewhere by the logexp stream). Uniqueness in the principal ball: on the open shell "
+        "eps<‖x‖<π only (x = 0 and the Taylor branch excluded), SO3_log_unique in regime 1 only",
         "within 8 ulp (of the dtype) of an odd multiple of π the sign of w = cos(θ/2) is decided by rounding: there Log(Exp x) is "
         "checked as a transformation (Exp(Log(Exp x)) = Exp(x)), and the clause 'angle below π' is applied 4 ulp away from π",
     ],
